@@ -180,10 +180,20 @@ func cmdCheck(args []string) int {
 	solverWins := map[string]int{}
 	var samples []map[string]any
 	reach := map[string]int{}
+	coverStat := map[string]int{}
+	nCanary := 0
 	for _, a := range aggs {
 		generated[a.Name] = true
 		solverSecs += a.Secs
+		if a.Must {
+			nCanary++
+		}
 		if a.Cover {
+			kind := "cover-requires"
+			if strings.Contains(a.Name, "cover-return") {
+				kind = "cover-return"
+			}
+			coverStat[kind+":"+a.Status]++
 			if strings.Contains(a.Name, "cover-return") {
 				if a.Status == "sat" {
 					reach[a.Func]++
@@ -318,8 +328,9 @@ func cmdCheck(args []string) int {
 			"samples":                  samples,
 			"back_ends":                []string{"z3-new 5.1.0", "cvc5 1.0", "z3 4.8.12 (raced per obligation)"},
 			"contract_files":           p.specs.Files,
-			"vacuity":                  "cover-requires satisfiable for every function; at least one reachable return per function; mustfail canaries not provable",
-			"extraction":               "SSA built by x/tools from /repo's working tree on this run (tags: verif); nothing hand-transcribed",
+			"vacuity": fmt.Sprintf("%d mustfail canaries (clauses that are false on purpose), none discharged; precondition covers: %d satisfiable, %d undecided within 1 s, %d contradictory (a contradictory one is an engine error); return-path covers: %d reachable, %d undecided, %d unreachable under the contract (listed by path in the run's output); no function has all its returns unreachable; every name in obligations.lock was generated",
+				nCanary, coverStat["cover-requires:sat"], coverStat["cover-requires:unknown"], coverStat["cover-requires:unsat"], coverStat["cover-return:sat"], coverStat["cover-return:unknown"], coverStat["cover-return:unsat"]),
+			"extraction": "SSA built by x/tools from /repo's working tree on this run (tags: verif); nothing hand-transcribed",
 		},
 	}
 	os.MkdirAll(filepath.Join(outDir(), "evidence"), 0o755)
